@@ -189,8 +189,16 @@ def gen_cases(ctx):
     quick = ctx.quick()
     cases = []
 
-    def add(cls, sf, cf, econ=0, cmap=None, ops=()):
-        cases.append(case_lines(len(cases), cls, sf, cf, econ, cmap, list(ops)))
+    FLAG_BYTES = [1, 1, 2, 128, 255, 255]
+
+    def add(cls, sf, cf, econ=0, cmap=None, ops=(), wire=None):
+        L = case_lines(len(cases), cls, sf, cf, econ, cmap, list(ops))
+        if wire is None:
+            wire = rng.random() < 0.4
+        if wire:         # the client format arrives in a real SetPixelFormat message, flags as arbitrary non-zero bytes
+            i = L.index("setup")
+            L[i] = "setupmsg %d %d" % (rng.choice(FLAG_BYTES) if cf[2] else 0, rng.choice(FLAG_BYTES) if cf[3] else 0)
+        cases.append(L)
 
     # corpus first
     cdir = os.path.join(vlib.VERIF, "corpus", "C10")
@@ -351,6 +359,56 @@ def gen_cases(ctx):
             o3, _ = xlate_ops(rng, sf, vals[:300])
             ops += o3
         add("cmserver", sf, cf, rng.randint(0, 1), (is16, count, data), ops + geom_ops(sf, cf[0]))
+    # 7b. the application replaces the framebuffer (rfbNewFramebuffer) while the client is connected: the client's
+    #     function and table must follow the new server format, incl. changes of the trueColour flag only
+    for _ in range(16 if quick else 150):
+        kind = rng.choice(["cm8", "cm8", "same", "other", "rand"])
+        cf = rand_fmt(rng, rng.choice([8, 16, 32])) if rng.random() < 0.8 else (8, 8, 0, 0, 0, 0, 0, 0, 0, 0)
+        cmap = None
+        if kind == "cm8":        # colour-mapped 8-bit server with the default layout fields, then true colour
+            sf = (8, 8, 0, 0, 7, 7, 3, 0, 3, 6)
+            is16 = rng.randint(0, 1)
+            lim = 65535 if is16 else 255
+            cmap = (is16, 256, [rng.choice([0, lim, rng.randint(0, lim)]) for _ in range(768)])
+            nb = [(rng.choice([2, 8]), 1, 1)] + ([(5, 3, 2)] if rng.random() < 0.3 else [])
+        else:
+            bpp0 = rng.choice([1, 2, 4])
+            bps0 = {1: 2, 2: 5, 4: rng.choice([8, 10])}[bpp0]
+            sf = init_server_format(bps0, bpp0) if kind != "rand" else rand_fmt(rng, 8 * bpp0, be=0)
+            if kind == "same":
+                nb = [(bps0, 3, bpp0), (bps0, 3, bpp0)]
+            else:
+                bpp1 = rng.choice([1, 2, 3, 4])
+                nb = [({1: 2, 2: rng.choice([4, 5]), 3: 8, 4: rng.choice([8, 10])}[bpp1], 3, bpp1)]
+                if rng.random() < 0.5:
+                    nb.append(({1: 2, 2: 5, 3: 8, 4: 8}[bpp0], 3, bpp0))
+        vals0, _ = sweep_values(rng, sf, 256)
+        ops, _ = xlate_ops(rng, sf, vals0, slack=1 if sf[0] == 24 else 0)
+        cur = sf
+        for (bps1, spp1, bpp1) in nb:
+            ops.append("newfb %d %d %d" % (bps1, spp1, bpp1))
+            cur = init_server_format(bps1, bpp1)
+            v1, _ = sweep_values(rng, cur, 256)
+            o2, _ = xlate_ops(rng, cur, v1)
+            ops += o2
+            if rng.random() < 0.3:
+                ops.append("extent %d 2 2" % (2 * (cur[0] // 8)))
+        add("newfb " + kind, sf, cf, rng.randint(0, 1), cmap, ops)
+    # 7c. byte-order / true-colour flags through the wire, big-endian server formats declared by the application
+    #     (verbatim copy for identical formats, no swap for equal byte orders whatever the flag byte values)
+    for _ in range(16 if quick else 150):
+        sb = rng.choice([16, 16, 32, 8])
+        sf = rand_fmt(rng, sb, be=rng.choice([1, 1, 0]))
+        r = rng.random()
+        if r < 0.45:
+            cf = sf
+        elif r < 0.6 and sb != 8:
+            cf = with_be(sf, 1 - sf[2])
+        else:
+            cf = rand_fmt(rng, rng.choice([8, 16, 32]), be=sf[2] if rng.random() < 0.7 else None)
+        vals, how = sweep_values(rng, sf, 256)
+        ops, _ = xlate_ops(rng, sf, vals)
+        add("wire " + ("same" if cf == sf else "diff"), sf, cf, rng.randint(0, 1), None, ops, wire=True)
     # 8. 24-bpp servers: area exactness (F10): input ends exactly at the guard page
     for _ in range(6 if quick else 40):
         sf = rand_fmt(rng, 24, be=0) if rng.random() < 0.6 else CATALOGUE[11][1]
@@ -416,7 +474,7 @@ def parse_case(lines):
             d["econ"] = int(p[1])
         elif p[0] == "cmap":
             d["cmap"] = (int(p[1]), int(p[2]), [int(x) for x in p[3:]])
-        elif p[0] in ("setup", "xlate", "extent", "recmap"):
+        elif p[0] in ("setup", "setupmsg", "newfb", "xlate", "extent", "recmap"):
             d["ops"].append(p)
     return d
 
@@ -443,6 +501,16 @@ def expect_pixel(sf, cf, p, cmap):
     return out
 
 
+def init_server_format(bps, bytespp):
+    """the server format the documented call rfbNewFramebuffer(screen, fb, w, h, bitsPerSample, samplesPerPixel,
+    bytesPerPixel) establishes on a little-endian host: true colour, host byte order, samples packed from bit 0"""
+    b = 8 * bytespp
+    if b == 8:
+        return (8, 8, 0, 1, 7, 7, 3, 0, 3, 6)
+    m = ((1 << bps) - 1) & 0xFFFF
+    return (b, b, 0, 1, m, m, m, 0, bps & 255, (2 * bps) & 255)
+
+
 def oracle_case(lines, impl_lines):
     """returns None or (message, features, (op_index, pixel_index))"""
     d = parse_case(lines)
@@ -450,15 +518,17 @@ def oracle_case(lines, impl_lines):
     cls = lines[0].split()[2] if len(lines[0].split()) > 2 else ""
     if cls == "malformed" or sf is None or cf is None:
         return None
-    strat = "single" if (sf[0] < 16 or ((not sf[3] or not d["econ"]) and sf[0] == 16)) else "rgb"
-    feat = {"sbpp": sf[0], "cbpp": cf[0], "sbe": sf[2], "cbe": cf[2], "stc": sf[3], "ctc": cf[3], "econ": d["econ"],
-            "strategy": strat,
-            "ovf16": bool(sf[3] and any(a == 65535 and b == 65535 for a, b in zip(sf[4:7], cf[4:7])))}
-    # domain of the property
-    server_ok = (fmt_ok(sf) if sf[3] else sf[0] in (8, 16))
     client_cm = not cf[3]
     cfe = BGR233 if client_cm else cf
     client_ok = (cf[0] == 8) if client_cm else fmt_ok(cf)
+
+    def describe(sf):
+        strat = "single" if (sf[0] < 16 or ((not sf[3] or not d["econ"]) and sf[0] == 16)) else "rgb"
+        feat = {"sbpp": sf[0], "cbpp": cf[0], "sbe": sf[2], "cbe": cf[2], "stc": sf[3], "ctc": cf[3], "econ": d["econ"],
+                "strategy": strat,
+                "ovf16": bool(sf[3] and any(a == 65535 and b == 65535 for a, b in zip(sf[4:7], cf[4:7])))}
+        return feat, (fmt_ok(sf) if sf[3] else sf[0] in (8, 16))
+    feat, server_ok = describe(sf)
     it = iter(impl_lines)
     setup_fn = None
     pad_leak = None
@@ -469,7 +539,23 @@ def oracle_case(lines, impl_lines):
         except StopIteration:
             return ("implementation produced no observation for '%s' (crash?)" % " ".join(p)[:60], dict(feat, kind="crash"), (oi, 0))
         q = line.split()
-        if p[0] == "setup":
+        if p[0] == "newfb":
+            # the application replaced the framebuffer: from now on the pixels are in the new server format
+            sf = init_server_format(int(p[1]), int(p[3]))
+            feat, server_ok = describe(sf)
+            cur_cmap = (0, 0, [])
+            if setup_fn is None:
+                continue
+            if not (server_ok and fmt_ok(cfe)):
+                setup_fn = None
+                continue
+            if " sf=" not in line or " client ok=1" not in line:
+                return ("rfbNewFramebuffer with a supported format: " + line[:60], dict(feat, kind="newfb"), (oi, 0))
+            got_sf = tuple(int(x) for x in line.split(" sf=")[1].split(" client ")[0].split())
+            if got_sf != sf:
+                return ("server format after rfbNewFramebuffer is %s, expected %s" % (got_sf, sf), dict(feat, kind="newfb"), (oi, 0))
+            continue
+        if p[0] in ("setup", "setupmsg"):
             if client_cm and cf[0] != 8:
                 if line != "setup ok=0":
                     return ("colour-map client with %d bpp accepted" % cf[0], dict(feat, kind="setup"), (oi, 0))
@@ -574,6 +660,24 @@ def canon(line):
     return line
 
 
+def canon_case(lines):
+    """canonical observation lines of one case for the model/implementation diff: padding byte (see canon) and,
+    while the verbatim function (memcpy) is installed, the offset of a read fault: which byte of a copy that
+    crosses the end of the input memcpy touches first is a property of the C library, not of libvncserver
+    (observed: 'FAULT at=49' for a row whose first inaccessible byte is 48)"""
+    out, fn = [], None
+    for l in lines:
+        l = canon(l)
+        if l.startswith("setup ok=1 fn=") or " client ok=1 fn=" in l:
+            fn = l.split(" fn=")[1].split()[0]
+        elif l.startswith("setup ") or (l.startswith("newfb ") and " client ok=1" not in l):
+            fn = None
+        if fn == "none" and l.startswith("xlate FAULT at="):
+            l = "xlate FAULT at=*"
+        out.append(l)
+    return out
+
+
 # ---------------------------------------------------------------- running
 def run_chunks(exe, cases, nproc, unlimited_stack=False, timeout=3000):
     """split the case list over nproc driver processes; returns (rc, out, err) concatenated in order"""
@@ -614,17 +718,22 @@ def minimal_case(lines, op_index, pix_index):
     head, seen = [], -1
     for l in lines:
         k = l.split()[0]
-        if k in ("setup", "xlate", "extent", "recmap"):
+        if k in ("setup", "setupmsg", "newfb", "xlate", "extent", "recmap"):
             seen += 1
             if seen >= op_index:
                 break
-        if k in ("case", "sf", "cf", "econ", "cmap", "setup", "recmap"):
+        if k in ("case", "sf", "cf", "econ", "cmap", "setup", "setupmsg", "newfb", "recmap"):
             head.append(l)
-    if p[0] == "setup":
-        return head + ["setup"]
+    if p[0] in ("setup", "setupmsg", "newfb"):
+        return head + [" ".join(p)]
     if p[0] != "xlate":
         return head + [" ".join(p)]
-    isz = d["sf"][0] // 8
+    cur_sf = d["sf"]
+    for hl in head:
+        hp = hl.split()
+        if hp[0] == "newfb":
+            cur_sf = init_server_format(int(hp[1]), int(hp[3]))
+    isz = cur_sf[0] // 8
     stride, w, h = int(p[1]), int(p[2]), int(p[3])
     inp = bytes.fromhex(p[4]) if len(p) > 4 else b""
     r, x = divmod(pix_index, max(w, 1))
@@ -666,12 +775,12 @@ def check(ctx):
     for idx, c in enumerate(cases):
         il = by_hdr_c.get(c[0], [])
         ml = by_hdr_m.get(c[0], [])
-        d = vlib.first_diff([canon(l) for l in il], [canon(l) for l in ml])
+        d = vlib.first_diff(canon_case(il), canon_case(ml))
         if d is not None:
             mismatches.append((idx, d))
         hp = c[0].split()
         cls = hp[2] if len(hp) > 2 else "?"
-        if cls in ("tc", "malformed", "s24") and len(hp) > 3:
+        if cls in ("tc", "malformed", "s24", "newfb", "wire") and len(hp) > 3:
             cls += " " + hp[3].split(":")[0]
         if cls.startswith("corpus:"):
             cls = "corpus"
@@ -734,9 +843,10 @@ def check(ctx):
 
         def differs(lines):
             (r1, co, _), (r2, mo, _) = run_pair([lines], cexe, mexe)
-            return [canon(l) for l in co.split("\n")] != [canon(l) for l in mo.split("\n")]
-        head = [l for l in c if l.split()[0] in ("case", "sf", "cf", "econ", "cmap", "setup")]
-        body = [l for l in c if l.split()[0] not in ("case", "sf", "cf", "econ", "cmap", "setup")]
+            return canon_case(co.split("\n")) != canon_case(mo.split("\n"))
+        HK = ("case", "sf", "cf", "econ", "cmap", "setup", "setupmsg")
+        head = [l for l in c if l.split()[0] in HK]
+        body = [l for l in c if l.split()[0] not in HK]
         small = c
         if differs(head):
             small = head
@@ -775,6 +885,6 @@ def replay(ctx, path):
     if e:
         ctx.violation("pixel translation violates the property on the implementation: " + e[0], e[1],
                       "script:\n" + "\n".join(lines) + "\n\nimplementation output:\n" + co[:6000])
-    elif [canon(l) for l in co.split("\n")] != [canon(l) for l in mo.split("\n")]:
+    elif canon_case(co.split("\n")) != canon_case(mo.split("\n")):
         ctx.violation("correspondence differs on the replayed script", {"kind": "correspondence"},
                       "script:\n" + "\n".join(lines) + "\n\n" + co[:6000] + "\n" + mo[:6000], no_input=True)
